@@ -58,6 +58,9 @@ func (e *Engine) lenObl(s *State, fr *Frame, site ssa.Instruction, sl Term, n in
 
 // modelCall returns (value, successors, handled, done).
 func (e *Engine) modelCall(s *State, fr *Frame, dst *ssa.Call, key string, f *ssa.Function, args []Value, site ssa.Instruction) (Value, []*State, bool, bool) {
+	if v, ok := e.modelBmain(s, fr, key, f, args, site); ok {
+		return v, nil, true, false
+	}
 	switch key {
 	case "encoding/binary.bigEndian.Uint16", "encoding/binary.bigEndian.Uint32", "encoding/binary.bigEndian.Uint64",
 		"encoding/binary.littleEndian.Uint16", "encoding/binary.littleEndian.Uint32", "encoding/binary.littleEndian.Uint64":
